@@ -1,7 +1,7 @@
 """C03: chain rule over arbitrary graphs; each rule once (L1)."""
 from harness import common as C
 
-FILES = ["Engine/Toposort.v", "Engine/ToposortProof.v", "Engine/Backward.v", "Engine/BackwardProof.v", "Engine/Run03.v", "Engine/Tagged.v", "Engine/Tower.v", "Engine/TaggedProof.v", "Engine/TowerAlg.v", "Engine/FwdCorrect.v", "Engine/FwdStep.v", "Engine/FwdEval.v", "Engine/TowerRing.v", "Engine/MixInterp.v", "Engine/MixStep.v", "Engine/MixBackward.v", "Engine/MixEval.v", "Props/C03.v"]
+FILES = ["Engine/Toposort.v", "Engine/ToposortProof.v", "Engine/Backward.v", "Engine/BackwardProof.v", "Engine/Run03.v", "Engine/TopoTie.v", "Engine/Tagged.v", "Engine/Tower.v", "Engine/TaggedProof.v", "Engine/TowerAlg.v", "Engine/FwdCorrect.v", "Engine/FwdStep.v", "Engine/FwdEval.v", "Engine/TowerRing.v", "Engine/MixInterp.v", "Engine/MixStep.v", "Engine/MixBackward.v", "Engine/MixEval.v", "Props/C03.v"]
 RULE = ("random tapes (1..size nodes; fan-out, diamonds, f(x,x) multi-edges, constants, dead branches), "
         "random programs with branches/loops/recursion steered by traced values (the executed trace is the "
         "tape), and direct calls of autograd.util.toposort on explicit parent lists; a case is distinct by "
